@@ -176,7 +176,12 @@ AdvH(gg, p, pe, f, ins, r, h) ==
                       /\ pe.sim[f][h+1][1] # v,
                     V("C03", r.n, "confirmed-frame-resimulated-with-other-input",
                       <<p, h, f, pe.sim[f][h+1][1], v>>))
-    IN me \o fin \o AdvH(gg, p, pe, f, ins, r, h + 1)
+        \* Disconnected is final: a frame once simulated with the player flagged Disconnected lies after its
+        \* cut-off and is never given that player's input again
+        back == When(f \in DOMAIN pe.sim /\ h < Len(pe.sim[f]) /\ pe.sim[f][h+1][2] = Disconnected
+                       /\ s # Disconnected,
+                     V("C03", r.n, "disconnected-frame-resimulated-as-connected", <<p, h, f, v, s>>))
+    IN me \o fin \o back \o AdvH(gg, p, pe, f, ins, r, h + 1)
 
 AdvViol(gg, p, pe, f, ins, r) ==
   LET first == f > pe.maxSim
@@ -289,6 +294,18 @@ HeardUpdate(pe, r, N) ==
                 !.heard = [q \in 0..N-1 |-> IF from(q) THEN r.t ELSE pe.heard[q]],
                 !.drq   = [q \in 0..N-1 |-> pe.drq[q] \/ dr(q)],
                 !.calls = Min2(@ + 1, 2)]
+
+\* the connection status a session reports: a disconnected player's cut-off never rises again (inputs that
+\* arrive after the drop are not accepted) and the flag is never cleared
+StatV(gg, p, pe, r) ==
+  IF ~Has(r, "st") \/ gg.isSpec[p] THEN <<>>
+  ELSE LET RECURSIVE F(_)
+           F(h) == IF h >= gg.NP THEN <<>>
+                   ELSE When(pe.stat[h][1] /\ (r.st[h+1][2] > pe.stat[h][2] \/ ~r.st[h+1][1]),
+                             V("C07", r.n, "cutoff-changed-after-the-drop", <<p, h, pe.stat[h], r.st[h+1]>>)
+                             \o V("C03", r.n, "input-accepted-from-disconnected-player", <<p, h, pe.stat[h], r.st[h+1]>>))
+                        \o F(h + 1)
+       IN F(0)
 
 \* buffer bounds (C18) and stranded outgoing inputs (C11) on a P2P line
 RECURSIVE EpViol(_, _, _, _, _)
@@ -423,7 +440,7 @@ TickP2P(gg, r) ==
                                                     THEN 1 ELSE 0),
                               !.waitArrivals = @ + (IF Has(r, "arr") THEN Len(r.arr) ELSE 0)]
   IN AddViol([g3 EXCEPT !.stats = st1],
-             acc.vs \o endV \o finV \o confV \o syncV \o expV \o tsV \o BufViol(gg, p, r))
+             acc.vs \o endV \o finV \o confV \o syncV \o expV \o tsV \o BufViol(gg, p, r) \o StatV(gg, p, pe0, r))
 
 ---------------------------------------------------------------------------
 \* a `tick` line of a spectator session (C06)
@@ -578,7 +595,7 @@ PollLine(gg, r) ==
                 !.stat = IF Has(r, "st") THEN [h \in 0..gg.NP-1 |-> r.st[h+1]] ELSE @]
   IN AddViol([gg EXCEPT !.pr[p] = pe1],
              When(r.r # "ok", V("PANIC", r.n, r.r, <<p>>))
-             \o (IF gg.isSpec[p] THEN <<>> ELSE BufViol(gg, p, r)))
+             \o (IF gg.isSpec[p] THEN <<>> ELSE BufViol(gg, p, r) \o StatV(gg, p, pe0, r)))
 
 OtherPeerLine(gg, r) ==
   \* disc / dly / stats: results are judged by the property-specific monitors
